@@ -83,6 +83,13 @@ class Trav(Suite):
                         root = rng.choice(inner)
                 api = rng.choice(["swc_utils", "tree", "node"])
                 out.append({"class": f"{shape}/{numbering}/{api}", "n": nn, "pids": pids, "root": root, "api": api})
+        # small scope, exhaustively: every tree with the root first on up to 4 (5) nodes, every start node, all three entry points in turn
+        kk = 0
+        for n in range(1, (6 if tier == "thorough" or widen else 5)):
+            for pids in gen.all_root0_trees(n):
+                for root in range(n):
+                    api = ["swc_utils", "tree", "node"][kk % 3]; kk += 1
+                    out.append({"class": f"all-n{n}/{api}", "n": n, "pids": pids, "root": root, "api": api})
         # the tree as it is NOW: traverse, re-parent one node in place through its node handle, traverse again
         for _ in range(8 if tier == "quick" and not widen else 30):
             n = rng.choice([5, 7, 9, 12, 16])
